@@ -17,9 +17,12 @@ ALPHA = {
     "plain": ["a1 x", "a1 y", "b2 x", "  a1", "zz a1", "", "   ", "other", "a12", "A1", "a1", "b2"],
 }
 ALPHA["group2"] = ALPHA["group"]     # same lines, regex with unnamed capturing groups before and after `value`
+ALPHA["optional-group"] = ALPHA["group"]
+ALPHA["with-keep-sorted"] = ALPHA["none"]   # the block also carries keep-sorted (whose own diagnostics are not this check's subject)
 ALPHA["anchored"] = ALPHA["group"]   # same lines, regex anchored at both ends (line terminators must not be part of a line)
 PATTERN = {"none": None, "group": r"id: (?P<value>\w+)", "plain": r"[a-z]\d+", "group2": r"(id|ID): (?P<value>\w+)( x| y)?",
-           "anchored": r"^\s*id: (?P<value>\w+)$"}
+           "anchored": r"^\s*id: (?P<value>\w+)$", "optional-group": r"id: (?P<value>[a-z]+)|\w+",
+           "with-keep-sorted": None}
 RULE = ("Bounded-exhaustive: every sequence of up to MAXLEN lines over a 12-symbol alphabet (repeated keys, keys differing "
         "only in indentation or trailing blanks, keys differing only outside the regex group, case variants, blank and "
         "non-matching lines) x {no regex, `value` group regex, plain regex, `value` group between unnamed groups}; plus random long blocks with Unicode keys "
@@ -30,6 +33,8 @@ ASSUMPTIONS = ["simple layout only (tags in their own line comments)",
 
 
 def _attrs(mode, bare):
+    if mode == "with-keep-sorted":
+        return [("keep-unique", None if bare else ""), ("keep-sorted", "asc" if bare else "desc")]
     if mode == "none":
         return [("keep-unique", None if bare else "")]
     return [("keep-unique", PATTERN[mode])]
@@ -38,8 +43,8 @@ def _attrs(mode, bare):
 def plan(tier, seed):
     jobs = []
     maxlen = MAXLEN[tier]
-    for mode in ("none", "group", "plain", "group2", "anchored"):
-        for bare in ((True, False) if mode == "none" else (False,)):
+    for mode in ("none", "group", "plain", "group2", "anchored", "optional-group", "with-keep-sorted"):
+        for bare in ((True, False) if mode in ("none", "with-keep-sorted") else (False,)):
             jobs.append({"k": "enum", "mode": mode, "bare": bare, "len": (0, min(3, maxlen)), "first": None})
             for L in range(4, maxlen + 1):
                 for first in range(len(ALPHA[mode])):
@@ -81,7 +86,7 @@ def run_job(job, ctx):
         def flush():
             if blocks:
                 for c in vbatch.run_batch(ctx, blocks, "hash", "keep-unique", model, sig_prefix="C07",
-                                          nontrivial_fn=_nontrivial, sets_fn=_sets):
+                                          nontrivial_fn=_nontrivial, sets_fn=_sets, ignore_codes=("keep-sorted",)):
                     acc.add(c)
                 # the same sequences with the first line on the start tag's line and the last line on the end tag's line
                 # (no empty leading piece, no trailing line terminator), LF and CRLF
@@ -94,7 +99,8 @@ def run_job(job, ctx):
                         inl.append(vbatch.BBlock(b.attrs, ls[1:-1] if len(ls) >= 2 else [], inline_first=" " + ls[0],
                                                  inline_last=ls[-1] if len(ls) >= 2 else None))
                     if inl:
-                        for c in vbatch.run_batch(ctx, inl, "c", "keep-unique", model, eol=eol, sig_prefix="C07", nontrivial_fn=_nontrivial, sets_fn=_sets):
+                        for c in vbatch.run_batch(ctx, inl, "c", "keep-unique", model, eol=eol, sig_prefix="C07", nontrivial_fn=_nontrivial, sets_fn=_sets,
+                                                  ignore_codes=("keep-sorted",)):
                             acc.add(c)
                 del blocks[:]
 
